@@ -209,10 +209,7 @@ fn eval_path_expr(
         expr::PathExpr::Path(filter, location) => {
             eval_filtered_loc_expr(filter, location, node.clone(), context)?.as_value()
         }
-        expr::PathExpr::Root => match node {
-            dom::XmlNode::Document(_) => vec![node].as_value(),
-            _ => vec![node.owner_document().unwrap().as_node()].as_value(),
-        },
+        expr::PathExpr::Root => vec![root(&node)?].as_value(),
     };
 
     Ok(nodes)
@@ -286,10 +283,7 @@ fn eval_filtered_loc_expr(
                     .collect(),
             }
         } else {
-            let root = match node {
-                dom::XmlNode::Document(_) => node,
-                _ => node.owner_document().unwrap().as_node(),
-            };
+            let root = root(&node)?;
             match op {
                 expr::LocationPathOperator::Current => vec![root],
                 expr::LocationPathOperator::DescendantOrSelfNode => descendant_and_self(root),
@@ -693,6 +687,26 @@ fn document_order(node: &dom::XmlNode) -> (usize, usize) {
         },
         _ => (node.order(), 0),
     }
+}
+
+/// Root node of the document that contains the node.
+///
+/// A namespace node has no owner document of its own, so the document is also looked for on the
+/// ancestors of the node.
+fn root(node: &dom::XmlNode) -> error::Result<dom::XmlNode> {
+    let mut current = Some(node.clone());
+    while let Some(n) = current {
+        if let dom::XmlNode::Document(_) = n {
+            return Ok(n);
+        } else if let Some(document) = n.owner_document() {
+            return Ok(document.as_node());
+        }
+        current = parent(&n);
+    }
+
+    Err(error::Error::Unsupported(
+        "root of a node that is not in a document".to_string(),
+    ))
 }
 
 /// Parent in the XPath data model: attribute and namespace nodes have their element as parent.
